@@ -49,6 +49,17 @@ CLAIMED = {
         "SMT-decided per path, counterexamples replayed natively.",
         "numbers: any non-NaN float64 at top level, integers in [-2,2] nested; sequences L<=2; sets/dicts/relations <=2 members; "
         "relations of 2..4 rows for rank/orderby; NaN excluded by assumption"),
+    "C08": (
+        "Bounded symbolic execution of the real wbnf parser, syntax.Compile and Expr.Eval on enumerated concrete program texts "
+        "whose numbers come from a scope of symbolic values: let / arrow / application triples over 20 pattern shapes, 24 "
+        "sugared literals against their spelled-out tuple sets (folded and unfolded), 13 implicit-binder forms against the "
+        "explicit \\x form, 12 capture-avoiding substitutions, every ordered pair of binary operators against the documented "
+        "parenthesisation, 20 prefix/postfix/tail/chain programs, and 12 cond/&&/||/if programs whose unselected branch fails; "
+        "every program also in a rendering with redundant parentheses, comments and white space. Both sides must fail alike "
+        "or give Equal values for every scope value in the bound; SMT-decided per path, native replay.",
+        "program texts are enumerated, not symbolic (the lexer is regexp-driven); numbers x,y,z in [-2,2] and sets/tuples/arrays "
+        "built from them; operands of / % ^ are literals; a dict literal with a repeated key is rejected by design and excluded; "
+        "macros, imports, xstr templates and `let rec` are outside the registered bound"),
     "C09": (
         "Bounded symbolic execution of the real ArrayPattern/TuplePattern/SetPattern/ExprPattern/IdentPattern/"
         "ExtraElementPattern/FallbackPattern.Bind and Scope.MatchedUpdate against a reference matcher written from the language "
